@@ -302,6 +302,8 @@ def rep_variants(a):
     out.append(("read_only", ro))
     if a.ndim >= 2:
         out.append(("fortran_order", np.asfortranarray(a)))
+    if a.size and a.dtype.kind == "f" and np.all(np.isfinite(a)) and np.all(a == np.rint(a)) and np.all(np.abs(a) < 2**31):
+        out.append(("integer_dtype", a.astype(np.int64)))      # whole numbers written without a decimal point
     return out
 
 
